@@ -41,6 +41,12 @@ theorem c_regSet_keeps (c : CCtx) (b : St) (name : Nat) (val : Reg) (hcb : CB c)
     CB (SCPI_RegSet c name val) ∧ (SCPI_RegSet c name val).registers.length = regCount :=
   ⟨regSet_cb c name val hcb, regSet_length c b name val hcb hlen⟩
 
+/-- without an installed callback (`context->interface` or `context->interface->control` NULL, which the hand model does
+not cover): the registers are still those of the model and no control call is made -/
+theorem c_regSet_nocb (c : CCtx) (b : St) (name : Nat) (val : Reg) (h : ¬ CB c) (hlen : c.registers.length = regCount) :
+    (SCPI_RegSet c name val).registers = (regSet (toSt c b) name val).regs ∧
+    (SCPI_RegSet c name val).ctrlLog = c.ctrlLog := regSet_nocb c b name val h hlen
+
 /-- the fuel the translator gives the loop of SCPI_RegSet suffices for the generated tables: the out-of-fuel flag is never
 set (any context, any name, any value), and the interface pointers / the callback's answer are left alone -/
 theorem c_regSet_fuel (c : CCtx) (name : Nat) (val : Reg) :
@@ -54,6 +60,9 @@ example : let c := SCPI_RegSetBits (SCPI_RegSet (ofSt (St.init 2)) 3 0x20#16) 2 
 example : let c := SCPI_RegSetBits (SCPI_RegSet (SCPI_RegSet (ofSt (St.init 2)) 1 0x20#16) 3 0x20#16) 2 0x20#16
     c.registers.take 4 = [0x60#16, 0x20#16, 0x20#16, 0x20#16] ∧ c.ctrlLog = [(SCPI_CTRL_SRQ, 0x60#16)] ∧ c.oof = false := by decide
 example : SCPI_RegSet (ofSt (St.init 2)) 10 0xFFFF#16 = ofSt (St.init 2) ∧ SCPI_RegGet (ofSt (St.init 2)) 11 = 0#16 := by decide
+-- no interface: same registers, empty log
+example : let c := SCPI_RegSetBits (SCPI_RegSet (SCPI_RegSet { ofSt (St.init 2) with hasInterface := false } 1 0x20#16) 3 0x20#16) 2 0x20#16
+    c.registers.take 4 = [0x60#16, 0x20#16, 0x20#16, 0x20#16] ∧ c.ctrlLog = [] := by decide
 -- the three-level walk: a condition bit rises, is latched in the event register and summarised in the status byte
 example : let c := SCPI_RegSet (SCPI_RegSet (ofSt (St.init 2)) 5 0x0100#16) 6 0x0100#16
     c.registers = [0x80#16, 0, 0, 0, 0x0100#16, 0x0100#16, 0x0100#16, 0, 0, 0] ∧ c.oof = false := by decide
